@@ -1,8 +1,15 @@
 """Per-property check plans."""
+import glob
+import json
 import os
+import struct
 import subprocess
+import time
+
 import orchestrate as o
 
+
+# ------------------------------------------------------------------ C20 / C17
 
 def plan_c20(ctx):
     agg, rule, assumptions = o.check_c20(ctx)
@@ -14,7 +21,371 @@ def plan_c17(ctx):
     return agg, rule, assumptions, {}
 
 
-PLANS = {"C20": plan_c20, "C17": plan_c17}
+# ------------------------------------------------------------------ C08
+
+def plan_c08(ctx):
+    thorough = ctx.tier == "thorough"
+    gen_files = 6000 if thorough else 1500
+    jobs = []
+    jobs += o.plan_sweep_jobs(ctx, "full", 1000, gen_files)
+    jobs += o.plan_sweep_jobs(ctx, "trunc", 1000, gen_files)
+    jobs += o.plan_sweep_jobs(ctx, "typed", 1000, gen_files)
+    jobs += o.plan_run_jobs(ctx, "C08", o.BUDGET["C08"][ctx.tier])
+    res = o.run_workers(ctx, jobs)
+    o.handle_deaths(ctx, res)
+    agg = o.collect(ctx)
+    o.required_probes(ctx, agg, ["footer-cut-after-first-NL", "footer-cut-inside", "body2", "header2", "v1-body", "agrees_with_reference", "footer_rule_checked", "equals_spec", "version_1", "version_3", "with_leap_seconds", "scribble_v1_block", "decode_generated_ok", "decode_untyped_corruption_accepted", "v1_trailing", "pair_0_1", "dst_flag"])
+    sweeps = {}
+    for path in sorted(glob.glob(os.path.join(ctx.out, "stats-*-*.json"))):
+        try:
+            d = json.load(open(path))
+        except Exception:
+            continue
+        k = d.get("kind")
+        if k:
+            s = sweeps.setdefault(k, {"evaluations": 0, "files": 0})
+            s["evaluations"] += d.get("evaluations", 0)
+            s["files"] += d.get("files", 0)
+    rule = ("fault enumeration: (1) EVERY strict prefix of every one of the 894 distinct vendored IANA TZif files (tzdata 2025b, posix + right trees) and of every writer-generated file must be refused; "
+            "(2) every file decoded whole must agree with the harness's reference decoder (transitions, types, designations, leap records, footer rule) and, for generated files, equal the spec; "
+            "(3) the typed single-field corruption catalogue (22 kinds x up to 24 parameter values per file) must be refused and scribbling the 32-bit block of a v2+ file must not change the result; "
+            "(4) sampled part (exploration level): generated zone specs in v1/v2/v3 with decoy 32-bit blocks, shared designation strings, indicator vectors, extreme times, then untyped corruptions (flip, torn, zero-tail) "
+            "checked against the reference decoder whenever the library accepts. Non-trivial = every evaluated input (each is a distinct byte string handed to the decoder); distinct = distinct FNV digests of those byte strings / scenario texts")
+    extra = {"sweeps": sweeps, "exhaustive": False, "exhaustive_part": "truncation points and typed catalogue over the vendored corpus are enumerated completely; the space of all TZif files is sampled",
+             "corpus": {"tzdata": "2025b", "paths": 1243, "distinct_contents": 894, "note": "887 version-2 and 7 version-3 files, no v1: v1 coverage comes from the writer only"}}
+    return agg, rule, ["the harness's structural TZif model (tzsim/src/tzif.rs) and footer reader (posix.rs) are faithful to RFC 8536", "fidelity over 'all header combinations' is sampled by the zone-spec generator, not enumerated"], extra
+
+
+# ------------------------------------------------------------------ C07
+
+def plan_c07(ctx):
+    thorough = ctx.tier == "thorough"
+    jobs = []
+    jobs += o.plan_sweep_jobs(ctx, "trunc", 1000, 1500, prop="C07")
+    jobs += o.plan_sweep_jobs(ctx, "typed", 1000, 1500, prop="C07")
+    jobs += o.plan_run_jobs(ctx, "C07", o.BUDGET["C07"][ctx.tier])
+    res = o.run_workers(ctx, jobs)
+    o.handle_deaths(ctx, res)
+    builds = ["release+overflow-checks+debug-assertions"]
+    if thorough:
+        # the same execution set again under a plain release build and a plain debug build
+        for profile, binpath in (("plain", os.path.join(ctx.verif, "target", "plain", "tzsim")), ("dev", os.path.join(ctx.verif, "target", "debug", "tzsim"))):
+            rc, out = o.sh(["cargo", "build", "--offline", "--profile", profile], cwd=os.path.join(ctx.verif, "tzsim"))
+            if rc != 0:
+                ctx.harness_errors.append(f"cannot build the simulator with profile {profile}: {out[-500:]}")
+                continue
+            saved = ctx.tzsim
+            ctx.tzsim = binpath
+            n = o.BUDGET["C07"]["quick"] if profile == "dev" else o.BUDGET["C07"][ctx.tier] // 2
+            jobs = o.plan_run_jobs(ctx, "C07", n, tag=profile + "-")
+            jobs += o.plan_sweep_jobs(ctx, "trunc", 250 if profile == "dev" else 1000, 300, prop="C07")
+            res = o.run_workers(ctx, jobs)
+            o.handle_deaths(ctx, res)
+            ctx.tzsim = saved
+            builds.append(profile)
+    agg = o.collect(ctx)
+    o.required_probes(ctx, agg, ["boundary_probe_found_datetimes", "decode_untyped_corruption_accepted", "clock_before_epoch", "count_huge", "flip", "torn", "short"])
+    rule = ("one evaluation = one single-client scenario: decode/resolve of a (usually faulted) file delivered by the read seam - every truncation point, typed corruption, bit flips, torn mixes, zeroed tails, "
+            "hostile header counts - and, if a zone comes back, 4-16 follow-up probes at instants taken from that zone's own transition/leap table and the i64/i32 extremes (lookup, from_timespec, find, find_n, project, format), "
+            "clock jumps to extreme readings followed by now(), and constructors called with boundary numbers; plus the complete truncation and typed-corruption sweeps over the corpus. "
+            "Invariants: no unwind out of any call, worker neither dies nor hangs, peak heap during decode <= 4x input + 4 KiB, find <= 4k results + 1 KiB. "
+            "Non-trivial = at least two operations ran; distinct = distinct scenario digests / distinct byte strings")
+    return agg, rule, ["64-bit target only (usize overflow of count*TIME_SIZE on 32-bit is out of reach here)", "arguments reachable only by direct API misuse are sampled, not enumerated"], {"builds": builds}
+
+
+# ------------------------------------------------------------------ C15
+
+def miri_runs(ctx, n_seeds, workloads, rates, threads=3, calls=24):
+    """Tier B: separate Miri processes, one per (workload seed, miri seed, preemption rate)."""
+    cwd = os.path.join(ctx.verif, "tzsim-miri")
+    # build once (also builds the Miri sysroot if needed)
+    rc, out = o.sh(["cargo", "+nightly", "miri", "run", "--offline", "--target-dir", os.path.join(ctx.verif, "target", "miri"), "--", "0", "1", "1"], cwd=cwd, timeout=1800, extra_env={"MIRIFLAGS": "-Zmiri-seed=0"})
+    if rc != 0:
+        # is it tz-rs or the harness?
+        if "error" in out and "tz-rs" in out:
+            ctx.harness_errors.append("Miri tier: tz-rs does not build/run under Miri: " + out[-800:])
+        else:
+            ctx.harness_errors.append("Miri tier cannot start: " + out[-800:])
+        return {"executions": 0}
+    todo = [(w, s, r) for w in workloads for r in rates for s in range(n_seeds)]
+    running = []
+    done = 0
+    fails = []
+    t0 = time.time()
+    while todo or running:
+        while todo and len(running) < o.NPROC:
+            w, s, r = todo.pop(0)
+            e = o.env()
+            e["MIRIFLAGS"] = f"-Zmiri-seed={s} -Zmiri-preemption-rate={r}"
+            p = subprocess.Popen(["cargo", "+nightly", "miri", "run", "--offline", "--target-dir", os.path.join(ctx.verif, "target", "miri"), "--", str(w), str(threads), str(calls), "heavy" if w % 2 else "light"], cwd=cwd, env=e, stdout=subprocess.PIPE, stderr=subprocess.STDOUT, text=True)
+            running.append((p, w, s, r))
+        time.sleep(0.05)
+        for item in list(running):
+            p, w, s, r = item
+            if p.poll() is None:
+                continue
+            running.remove(item)
+            out = p.stdout.read()
+            done += 1
+            if p.returncode != 0 or "ok workload=" not in out:
+                fails.append((w, s, r, out))
+    for (w, s, r, out) in fails[:3]:
+        os.makedirs(ctx.replays, exist_ok=True)
+        path = os.path.join(ctx.replays, f"C15-miri-w{w}-s{s}-r{r}.miri.txt")
+        with open(path, "w") as f:
+            f.write(f"# property C15\n# oracle C15.miri\n# replay: cd /verif/tzsim-miri && MIRIFLAGS='-Zmiri-seed={s} -Zmiri-preemption-rate={r}' cargo +nightly miri run --offline --target-dir /verif/target/miri -- {w} {threads} {calls} {'heavy' if w % 2 else 'light'}\n")
+            f.write(f"workload {w}\nmiri_seed {s}\nrate {r}\nthreads {threads}\ncalls {calls}\nmode {'heavy' if w % 2 else 'light'}\n")
+            f.write("# ---- output of the failing execution\n")
+            for line in out.splitlines()[-60:]:
+                f.write("# " + line + "\n")
+        kind = "data-race-or-ub" if ("Undefined Behavior" in out or "data race" in out.lower()) else ("digest-mismatch" if "C15-MIRI-MISMATCH" in out else "failed")
+        ctx.found.append({"oracle": "C15.miri", "sig": kind, "detail": f"Miri execution (workload {w}, seed {s}, preemption rate {r}) failed: " + " | ".join(out.splitlines()[-6:])[:600], "replay": path, "miri": True})
+    return {"executions": done, "failed": len(fails), "wall_s": round(time.time() - t0, 1), "workload_seeds": list(workloads), "miri_seeds": f"0..{n_seeds}", "preemption_rates": list(rates), "threads": threads, "calls_per_thread": calls}
+
+
+def autotraits_gate(ctx):
+    """Tier C: compile gate. tz-rs builds but the gate does not => a public type lost an auto trait."""
+    res = {}
+    for name, argv in (("autotraits", ["cargo", "build", "--offline"]), ("autotraits-nightly", ["cargo", "+nightly", "build", "--offline", "--target-dir", os.path.join(ctx.verif, "target", "nightly")])):
+        rc, out = o.sh(argv, cwd=os.path.join(ctx.verif, name))
+        res[name] = "builds" if rc == 0 else "FAILS"
+        if rc != 0:
+            ok, _ = o.tz_rs_builds(ctx.verif)
+            if not ok:
+                ctx.harness_errors.append(f"{name}: tz-rs itself does not build")
+                continue
+            if "could not compile `tz-rs`" in out:
+                ctx.harness_errors.append(f"{name}: tz-rs does not build with this toolchain: {out[-400:]}")
+                continue
+            os.makedirs(ctx.replays, exist_ok=True)
+            path = os.path.join(ctx.replays, f"C15-{name}.autotraits.txt")
+            with open(path, "w") as f:
+                f.write(f"# property C15\n# oracle C15.autotraits\n# replay: cd /verif/{name} && {' '.join(argv)}\ngate {name}\n# ---- compiler output\n")
+                for line in out.splitlines()[-80:]:
+                    f.write("# " + line + "\n")
+            lines = [l for l in out.splitlines() if "error" in l or "cannot be" in l or "is not satisfied" in l or "within" in l]
+            ctx.found.append({"oracle": "C15.autotraits", "sig": name, "detail": "tz-rs builds but the auto-trait gate does not: " + " | ".join(lines[:6])[:700], "replay": path, "gate": name})
+    return res
+
+
+def plan_c15(ctx):
+    thorough = ctx.tier == "thorough"
+    gate = autotraits_gate(ctx)
+    cold_every = 150 if thorough else 400
+    res = o.run_workers(ctx, o.plan_run_jobs(ctx, "C15", o.BUDGET["C15"][ctx.tier], extra_args=["--cold-every", str(cold_every)]))
+    o.handle_deaths(ctx, res)
+    agg = o.collect(ctx)
+    if thorough:
+        miri = miri_runs(ctx, 128, [1, 2, 3, 4], ["0.05", "0.3"])
+    else:
+        miri = miri_runs(ctx, 16, [1, 2], ["0.3"])
+    o.required_probes(ctx, agg, ["zone_shared_between_threads", "switch_inside_resolution", "cold_child_evaluations", "env_flip", "clock_jump_backward", "clock_before_epoch", "torn_upgrade"])
+    rule = ("tier A: one evaluation = one scenario with 2-4 client threads + optional installer + environment/clock actor under the baton scheduler (yield points: every operation boundary and inside the read seam); "
+            "oracles: every recorded operation is executed again ALONE (after all threads have finished, in reverse order, on a fresh private copy rebuilt from the bytes it was decoded from, with reads and clock replayed) and must return the identical canonical result and open the identical paths; "
+            "a sample of scenarios additionally evaluates every operation in a fresh child process (cold: no earlier call ever happened in that process); returned local time types must belong to the zone asked; now()/current() must equal the conversion of the simulated reading at the call; "
+            "the calling thread's live heap returns to its pre-call value after each call; two executions of the same scenario give the same result digest. "
+            "tier B: Miri executions of a dense 3-thread workload on shared zones (seeded preemption at basic-block granularity, data-race detector). tier C: compile gate for Send/Sync/Unpin/UnwindSafe and (nightly) Freeze on every public type. "
+            "Non-trivial = at least one read, context switch or fault; distinct = distinct scenario digests")
+    extra = {"miri": miri, "autotraits_gate": gate, "cold_every": cold_every,
+             "not_decided": "the structural clause (no static / thread_local / Cell anywhere in future source text) is a whole-program syntactic scan, i.e. static analysis, outside this family; a present but behaviourally perfect, allocation-free global is invisible to any dynamic check"}
+    return agg, rule, ["no two simulated threads run simultaneously in tier A (interleaving granularity = operation boundaries and read-seam crossings); finer interleavings only in the Miri tier", "Miri's scheduler and data-race detector"], extra
+
+
+# ------------------------------------------------------------------ C19
+
+FEATURE_SETS = (("core", []), ("alloc", ["--features", "alloc"]), ("std", ["--features", "std"]))
+
+
+def plan_c19(ctx):
+    feat_dir = os.path.join(ctx.verif, "featsim")
+    builds = {}
+    # 1. tz-rs alone in the three configurations, guard on (config.toml does not apply in /repo: pass it) and off
+    for guard in ("off", "on"):
+        for name, flags in FEATURE_SETS:
+            argv = ["cargo", "build", "--offline", "--no-default-features"] + flags + ["--target-dir", os.path.join(ctx.verif, "target", f"repo-{guard}")]
+            rc, out = o.sh(argv, cwd="/repo", extra_env={"RUSTFLAGS": "--cfg tz_rs_verif"} if guard == "on" else None)
+            builds[f"tz-rs[{name}] guard {guard}"] = "builds" if rc == 0 else "FAILS"
+            if rc != 0:
+                if name == "std" and guard == "off":
+                    ctx.harness_errors.append("tz-rs does not build with default features: " + out[-500:])
+                    continue
+                os.makedirs(ctx.replays, exist_ok=True)
+                path = os.path.join(ctx.replays, f"C19-build-{name}-{guard}.build.txt")
+                with open(path, "w") as f:
+                    f.write(f"# property C19\n# oracle C19.build\n# replay: cd /repo && {' '.join(argv)}\nfeatures {name}\nguard {guard}\n# ---- compiler output\n")
+                    for line in out.splitlines()[-60:]:
+                        f.write("# " + line + "\n")
+                errs = [l for l in out.splitlines() if l.startswith("error")]
+                ctx.found.append({"oracle": "C19.build", "sig": f"{name}-guard-{guard}", "detail": f"tz-rs does not build with feature set {name} (guard {guard}): " + " | ".join(errs[:4])[:600], "replay": path, "build": (name, guard)})
+    if any(f["oracle"] == "C19.build" for f in ctx.found):
+        agg = o.collect(ctx)
+        agg["evaluations"] = max(agg["evaluations"], len(builds))
+        return agg, "feature-set builds", [], {"builds": builds}
+    # 2. the worker three times
+    bins = {}
+    for name, flags in (("core", []), ("alloc", ["--features", "tz-alloc"]), ("std", ["--features", "tz-std"])):
+        td = os.path.join(ctx.verif, "target", f"feat-{name}")
+        rc, out = o.sh(["cargo", "build", "--offline", "--release"] + flags + ["--target-dir", td], cwd=feat_dir)
+        if rc != 0:
+            ctx.harness_errors.append(f"featsim[{name}] does not build: {out[-600:]}")
+        bins[name] = os.path.join(td, "release", "featsim")
+    if ctx.harness_errors:
+        agg = o.collect(ctx)
+        return agg, "feature-set builds", [], {"builds": builds}
+    # 3. same scenarios in all three workers
+    total = o.BUDGET["C19"][ctx.tier]
+    per = max(1, total // o.NPROC)
+    jobs = []
+    for name in ("core", "alloc", "std"):
+        for k in range(o.NPROC):
+            jobs.append({"argv": [bins[name], "run", "--seed", str(ctx.seed), "--start", str(k * per), "--count", str(per), "--out", ctx.out, "--worker", str(k)],
+                         "crumb": os.path.join(ctx.out, f"crumb-{name}-{k}"), "label": f"featsim-{name}", "kind": "featsim", "prop": "C19", "worker": str(k), "first": k * per, "count": per, "build": name})
+    res = o.run_workers(ctx, jobs)
+    for r in res:
+        if r["rc"] != 0 or r["died_at"] is not None:
+            j = r["job"]
+            idx = r["died_at"]
+            if idx is None:
+                ctx.harness_errors.append(f"featsim[{j['build']}] worker failed: {r['output'][-300:]}")
+                continue
+            path = write_c19_replay(ctx, bins, idx, "C19.digest", f"featsim[{j['build']}] died at scenario index {idx}")
+            ctx.found.append({"oracle": "C19.digest", "sig": "worker-died", "detail": f"the {j['build']} build died while executing scenario index {idx}", "replay": path, "c19": True})
+    # 4. compare
+    evaluations = 0
+    ops = 0
+    mism = []
+    for k in range(o.NPROC):
+        data = {}
+        for name in ("core", "alloc", "std"):
+            try:
+                data[name] = open(os.path.join(ctx.out, f"digests-{name}-{k}.bin"), "rb").read()
+            except OSError:
+                data[name] = b""
+        n = min(len(d) for d in data.values()) // 16
+        evaluations += n
+        for i in range(n):
+            c = [data[b][16 * i:16 * i + 8] for b in ("core", "alloc", "std")]
+            a = [data[b][16 * i + 8:16 * i + 16] for b in ("alloc", "std")]
+            if not (c[0] == c[1] == c[2]) or a[0] != a[1]:
+                mism.append(k * per + i)
+        for name in ("core", "alloc", "std"):
+            try:
+                st = json.load(open(os.path.join(ctx.out, f"fstats-{name}-{k}.json")))
+            except Exception as e:
+                ctx.harness_errors.append(f"featsim statistics missing for {name}/{k}: {e}")
+                continue
+            if name == "core":
+                ops += st.get("ops", 0)
+            for v in st.get("noalloc", [])[:2]:
+                if not any(f["oracle"] == "C19.no_alloc" and f.get("build") == name for f in ctx.found):
+                    path = write_c19_replay(ctx, bins, v["index"], "C19.no_alloc", v["detail"])
+                    ctx.found.append({"oracle": "C19.no_alloc", "sig": name, "detail": f"scenario index {v['index']}: {v['detail']}", "replay": path, "c19": True, "build": name})
+    for idx in mism[:2]:
+        path = write_c19_replay(ctx, bins, idx, "C19.digest", "results differ between feature configurations")
+        detail = c19_diff(bins, path)
+        ctx.found.append({"oracle": "C19.digest", "sig": "results-differ", "detail": f"scenario index {idx}: {detail}", "replay": path, "c19": True})
+    agg = o.collect(ctx)
+    agg["evaluations"] = evaluations
+    agg["ops"] = ops
+    # a sample
+    rc, out = o.sh([bins["core"], "show", "C19", str(ctx.seed), "0"])
+    agg["samples"] = ["per-operation results of scenario index 0 in the build without allocator:\n" + out[:3000]]
+    rule = ("one evaluation = one explicit scenario (1-3 zones given as harness-owned slices, then 10-40 operations: lookups, DateTime/UtcDateTime construction and conversion, projection, find_n into a reused buffer, formatting into a stack buffer, "
+            "constructors with boundary numbers; plus find / decoding / TimeZone::new where the API exists) executed by three builds of the worker whose dependency tz-rs has features {}, {alloc}, {alloc,std}; "
+            "the per-scenario digest of the allocation-free surface must be equal in all three builds, the digest of the alloc surface equal in the two builds that have it; core-surface calls run with allocation forbidden in every build. "
+            "Non-trivial = every scenario (each runs >= 10 operations); distinct = distinct scenario digests")
+    extra = {"builds": builds, "scenarios_with_differing_digests": len(mism), "feature_sets": ["{}", "{alloc}", "{alloc,std}"]}
+    return agg, rule, ["the harness itself is always built with std; only the dependency's feature set varies", "now()/local() (std-only, clock/filesystem dependent) are not part of the cross-build comparison"], extra
+
+
+def write_c19_replay(ctx, bins, idx, oracle, detail):
+    os.makedirs(ctx.replays, exist_ok=True)
+    rc, text = o.sh([bins["core"], "gen", str(ctx.seed), str(idx)])
+    path = os.path.join(ctx.replays, f"C19-{idx}.c19.scn")
+    with open(path, "w") as f:
+        f.write(f"# property C19\n# oracle {oracle}\n# detail {detail}\n# verif_seed {ctx.seed}\n# index {idx}\n")
+        f.write(text)
+    return path
+
+
+def c19_diff(bins, path):
+    outs = {}
+    for name, b in bins.items():
+        rc, out = o.sh([b, "exec", path])
+        outs[name] = [l for l in out.splitlines() if l.startswith("op ")]
+    for surface, names in (("core", ("core", "alloc", "std")), ("alloc", ("alloc", "std"))):
+        rows = [[l for l in outs[n] if f" {surface} " in l] for n in names]
+        for i in range(min(len(r) for r in rows)):
+            vals = {r[i] for r in rows}
+            if len(vals) > 1:
+                return " VS ".join(f"[{n}] {r[i][:300]}" for n, r in zip(names, rows))
+    return "digests differ (no differing operation isolated)"
+
+
+def replay_special(verif, path):
+    """Replay of the non-scenario artefacts (compile gates, feature builds, Miri triples, C19 scenarios)."""
+    text = open(path).read()
+    kv = {}
+    for line in text.splitlines():
+        if line and not line.startswith("#") and " " in line:
+            k, v = line.split(" ", 1)
+            kv.setdefault(k, v)
+    if path.endswith(".autotraits.txt"):
+        name = kv.get("gate", "autotraits")
+        argv = ["cargo", "build", "--offline"] if name == "autotraits" else ["cargo", "+nightly", "build", "--offline", "--target-dir", os.path.join(verif, "target", "nightly")]
+        rc, out = o.sh(argv, cwd=os.path.join(verif, name))
+        print(out[-2000:])
+        if rc != 0:
+            print(f"VIOLATION property=C15 replay={path}")
+            return 1
+        return 0
+    if path.endswith(".build.txt"):
+        name, guard = kv.get("features", "core"), kv.get("guard", "off")
+        flags = dict(FEATURE_SETS)[name]
+        rc, out = o.sh(["cargo", "build", "--offline", "--no-default-features"] + flags + ["--target-dir", os.path.join(verif, "target", f"repo-{guard}")], cwd="/repo", extra_env={"RUSTFLAGS": "--cfg tz_rs_verif"} if guard == "on" else None)
+        print(out[-2000:])
+        if rc != 0:
+            print(f"VIOLATION property=C19 replay={path}")
+            return 1
+        return 0
+    if path.endswith(".miri.txt"):
+        e = {"MIRIFLAGS": f"-Zmiri-seed={kv.get('miri_seed', '0')} -Zmiri-preemption-rate={kv.get('rate', '0.3')}"}
+        rc, out = o.sh(["cargo", "+nightly", "miri", "run", "--offline", "--target-dir", os.path.join(verif, "target", "miri"), "--", kv.get("workload", "1"), kv.get("threads", "3"), kv.get("calls", "24"), kv.get("mode", "light")], cwd=os.path.join(verif, "tzsim-miri"), extra_env=e, timeout=1800)
+        print(out[-3000:])
+        if rc != 0 or "ok workload=" not in out:
+            print(f"VIOLATION property=C15 replay={path}")
+            return 1
+        return 0
+    if path.endswith(".c19.scn"):
+        bins = {}
+        for name, flags in (("core", []), ("alloc", ["--features", "tz-alloc"]), ("std", ["--features", "tz-std"])):
+            td = os.path.join(verif, "target", f"feat-{name}")
+            rc, out = o.sh(["cargo", "build", "--offline", "--release"] + flags + ["--target-dir", td], cwd=os.path.join(verif, "featsim"))
+            if rc != 0:
+                print(out[-1500:])
+                return 2
+            bins[name] = os.path.join(td, "release", "featsim")
+        outs = {}
+        bad = False
+        for name, b in bins.items():
+            rc, out = o.sh([b, "exec", path])
+            print(out)
+            outs[name] = out
+            if rc != 0 or "NOALLOC" in out:
+                bad = True
+        def dig(n, key):
+            return next((l for l in outs[n].splitlines() if l.startswith(key)), None)
+        if not (dig("core", "core_digest") == dig("alloc", "core_digest") == dig("std", "core_digest")) or dig("alloc", "alloc_digest") != dig("std", "alloc_digest"):
+            bad = True
+        if bad:
+            print(f"VIOLATION property=C19 replay={path}")
+            return 1
+        print("no violation of C19 on replay")
+        return 0
+    return None
+
+
+PLANS = {"C20": plan_c20, "C17": plan_c17, "C08": plan_c08, "C07": plan_c07, "C15": plan_c15, "C19": plan_c19}
 
 
 def selftest(verif):
